@@ -63,6 +63,9 @@ def configs(tier):
                                 out.append(dict(base, fix0=[a, b]))
                     else:
                         out.append(base)
+    # channel positions stored as unsigned integers (nearest-channel sets of the merged templates)
+    for n in (2, 3):
+        out.append({'n': n, 'T': 2, 'nc': 3, 'nsw': 2, 'ncl': 2, 'geom': 'zigzag_u32', 'wmi': 'I', 'templates': 'concrete0'})
     # (B) symbolic template values, fewer spikes
     for n in ((1, 2) if quick else (1, 2, 3)):
         for nc in (2, 3):
